@@ -126,7 +126,8 @@ class Built:
                                      bases=(_KwBase, _Methods), eq=False, repr=False)
             else:
                 cls = dataclass(eq=False, repr=False)(type(name, (self.classes[base],), {}))
-            self.classes[name] = symbol(cls)
+            # a subclass may be left UNDECORATED: it inherits the patched constructor of its @symbol ancestor
+            self.classes[name] = cls if (base != '-' and name in (self.case.get('undecorated') or ())) else symbol(cls)
 
     def _make_objects(self):
         pending = []
@@ -479,6 +480,7 @@ def run_case(case, caching=True, evaluations=1, tree_out=None, ambient=None):
     (enable_caching if caching else disable_caching)()
     try:
         b = Built(case)
+        snapshot = [{k: (list(v) if isinstance(v, list) else v) for k, v in vars(o).items()} for o in b.objs]
         b.query()
         outs = []
         if tree_out is not None:
@@ -487,7 +489,24 @@ def run_case(case, caching=True, evaluations=1, tree_out=None, ambient=None):
             except Exception as e:
                 tree_out.append(f'(?tree {type(e).__name__}: {e})')
         import contextlib
-        ctx = {None: contextlib.nullcontext, 'query': symbolic_mode, 'rule': rule_mode}[ambient]
+        # 'split:<mode>': the result iterator is STARTED outside any block (first result pulled there) and the remaining
+        # results are pulled inside a block of that mode
+        split = isinstance(ambient, str) and ambient.startswith('split:')
+        inner = ambient.split(':', 1)[1] if split else ambient
+        ctx = {None: contextlib.nullcontext, 'query': symbolic_mode, 'rule': rule_mode}[inner]
+        if split and case['quant'] != 'the':
+            for _ in range(evaluations):
+                it = iter(b.q.evaluate())
+                rows_ = []
+                try:
+                    rows_.append(b.row(next(it)))
+                    with ctx():
+                        for r in it:
+                            rows_.append(b.row(r))
+                except StopIteration:
+                    pass
+                outs.append(('rows', rows_))
+            return outs
         if case.get('pre_take') is not None and case['quant'] != 'the':
             # an ABANDONED evaluation first: take k results, close the iterator (must not change what follows)
             with ctx():
@@ -504,6 +523,10 @@ def run_case(case, caching=True, evaluations=1, tree_out=None, ambient=None):
                     outs.append(b.run_the())
                 else:
                     outs.append(('rows', b.run_an()))
+        # evaluation never modifies the user's objects (their attribute values, the contents of their lists)
+        after = [{k: (list(v) if isinstance(v, list) else v) for k, v in vars(o).items()} for o in b.objs]
+        if any(set(x) != set(y) or any(x[k] is not y[k] and x[k] != y[k] for k in x) for x, y in zip(snapshot, after)):
+            outs.append(('data_modified',))
         return outs
     except Exception as e:  # reported, never swallowed silently
         return [('exc', type(e).__name__, str(e)[:200])]
